@@ -17,7 +17,9 @@ from .. import ctables
 from .changed import status_vars, CONV_MACROS
 
 SETTERS = ("PyErr_SetString", "PyErr_SetObject", "PyErr_Format")
-EXT_RAISES = {"PyLong_AsLong": ("OverflowError",), "PyLong_AsUnsignedLongLong": ("OverflowError",),
+# external converters: (exception raised, value returned with it)
+EXT_RAISES = {"PyLong_AsLong": (("OverflowError", -1),),
+              "PyLong_AsUnsignedLongLong": (("OverflowError", (1 << 64) - 1),),
               "PyLong_AsLongLongAndOverflow": ()}
 
 
@@ -29,8 +31,9 @@ def _exc_name(e):
 
 
 class ExcAnalysis(Analysis):
-    def __init__(self, cfg, tu, ctx, constargs):
+    def __init__(self, cfg, tu, ctx, constargs, entry_x="none"):
         self.ctx = ctx
+        self.entry_x = entry_x
         self.constargs = constargs     # {param name: int}
         Analysis.__init__(self, cfg, tu)
         self.svars = status_vars(cfg.fn)
@@ -38,7 +41,7 @@ class ExcAnalysis(Analysis):
         self.live = self._flag_liveness()
 
     def initial(self):
-        st = frozenset([("x", "none")])
+        st = frozenset([("x", self.entry_x)])
         for p, v in self.constargs.items():
             st = sset(st, "f:" + p, v)
         return st
@@ -59,7 +62,22 @@ class ExcAnalysis(Analysis):
             v = sget(st, "ret:%s:%s" % (e0.l, e0.c))
             if v is not None:
                 return v
+            if callee(e0) in (("fn", "PyBool_FromLong"), ("fn", "Py_NewRef")):
+                return "NN"         # never NULL
         return Analysis.flag_value_of(self, e, st)
+
+    def _kill_calls(self, e, st):
+        """&v passed to a call: forget v - unless the callee's summary has
+        just told us what it stored there (marker k:<v> set in _call)."""
+        for n in e.walk():
+            if n.k == "UnaryOperator" and n.v == "&":
+                b = strip(n.kids[0])
+                if b is not None and b.k == "DeclRefExpr" and sget(st, "f:" + b.n) is not None:
+                    if sget(st, "k:" + b.n):
+                        st = sdel(st, "k:" + b.n)
+                    else:
+                        st = sdel(st, "f:" + b.n)
+        return st
 
     def const_call(self, call, st=None):
         if st is None:
@@ -83,8 +101,17 @@ class ExcAnalysis(Analysis):
                 new.extend(self._call(node, s, c, cal))
             states = new
         out = []
+        params = self.ctx["params"].get(self.cfg.name, [])
         for s in states:
             for n in e.walk():
+                # *param = constant : an out-parameter the caller may test
+                if n.k == "BinaryOperator" and n.v == "=":
+                    l1 = strip(n.kids[0])
+                    if l1 is not None and l1.k == "UnaryOperator" and l1.v == "*":
+                        b1 = strip(l1.kids[0])
+                        if b1 is not None and b1.k == "DeclRefExpr" and b1.n in params:
+                            cv = const_int(n.kids[1])
+                            s = sset(s, "o:" + b1.n, cv) if cv is not None else sdel(s, "o:" + b1.n)
                 if n.k == "BinaryOperator" and n.v == "=" and n.mo in CONV_MACROS:
                     l0 = strip(n.kids[0])
                     if l0 is not None and l0.k == "DeclRefExpr" and l0.n in self.svars \
@@ -106,9 +133,12 @@ class ExcAnalysis(Analysis):
             return [sset(st, "x", "other")]
         if name in EXT_RAISES:
             outs = [st]
-            for ex in EXT_RAISES[name]:
-                outs.append(sset(st, "x", ex))
+            for ex, errval in EXT_RAISES[name]:
+                # the error value comes with the exception
+                outs.append(sset(sset(st, "x", ex), "ret:%s:%s" % (c.l, c.c), errval))
             return outs
+        if name == "BTree_ShouldSuppressKeyError":
+            return [st]             # modelled on the branch edge (exact KeyError)
         if name in self.tu.funcs and name in self.ctx["interesting"] and name != self.cfg.name:
             params = self.ctx["params"][name]
             consts = {}
@@ -116,14 +146,14 @@ class ExcAnalysis(Analysis):
                 v = self.flag_value_of(a, st)
                 if isinstance(v, int):
                     consts[p] = v
-            exits = summary(self.tu, self.ctx, name, consts)
+            exits = summary(self.tu, self.ctx, name, consts, sget(st, "x") or "none")
             # the layers pass the same key/value object down: once this frame
             # has converted it successfully, the callee's conversion of it
             # cannot fail
             converted_here = bool(self.svars) and not sget(st, "cf") and \
                 all(sget(st, "f:" + v) not in (0, None) for v in self.svars)
             outs = []
-            for ret, x, cf in sorted(exits, key=repr):
+            for ret, x, cf, couts in sorted(exits, key=repr):
                 if cf and converted_here:
                     continue
                 s = sset(st, "x", x if x != "same" else sget(st, "x"))
@@ -131,6 +161,17 @@ class ExcAnalysis(Analysis):
                     s = sset(s, "cf", True)
                 if ret is not None:
                     s = sset(s, "ret:%s:%s" % (c.l, c.c), ret)
+                # out-parameters written by the callee: &local at the call site
+                written = dict(couts)
+                for p, a in zip(params, args):
+                    a0 = strip(a)
+                    if a0 is not None and a0.k == "UnaryOperator" and a0.v == "&":
+                        tgt = strip(a0.kids[0])
+                        if tgt is not None and tgt.k == "DeclRefExpr" and self.is_flag_var(tgt.n):
+                            if p in written:
+                                s = sset(sset(s, "f:" + tgt.n, written[p]), "k:" + tgt.n, 1)
+                            else:
+                                s = sdel(s, "f:" + tgt.n)
                 outs.append(s)
             return outs or [st]
         return [st]
@@ -172,18 +213,19 @@ class ExcAnalysis(Analysis):
                 sts = self.on_node(n, st) if n.e is not None else [st]
                 for s in sts:
                     ret = self.flag_value_of(n.e, s) if n.e is not None else None
-                    self.exits.add((ret, sget(s, "x"), bool(sget(s, "cf"))))
+                    outs = tuple(sorted((k[2:], v) for k, v in s if k.startswith("o:")))
+                    self.exits.add((ret, sget(s, "x"), bool(sget(s, "cf")), outs))
 
 
 _memo = {}
 
 
-def summary(tu, ctx, name, consts):
-    key = (tu.family, name, tuple(sorted(consts.items())))
+def summary(tu, ctx, name, consts, entry_x="none"):
+    key = (tu.family, name, tuple(sorted(consts.items())), entry_x)
     if key in _memo:
         return _memo[key]
     _memo[key] = set()          # recursion guard
-    an = ExcAnalysis(CFG(tu.funcs[name]), tu, ctx, consts)
+    an = ExcAnalysis(CFG(tu.funcs[name]), tu, ctx, consts, entry_x)
     an.solve()
     an.collect()
     _memo[key] = an.exits
@@ -206,8 +248,14 @@ def interesting_functions(tu):
     # helper functions that only translate errors are needed too
     conv = set(name for name, fn in tu.funcs.items()
                if any(n.k == "BinaryOperator" and n.mo in CONV_MACROS for n in fn.walk()))
-    helpers = set(name for name in base if name.endswith(("_convert", "_check", "_handle_overflow"))
-                  or name == "BTree_ShouldSuppressKeyError")
+    # every function that sets, clears or inspects the pending exception is a
+    # helper whose effect callers need (translation helpers, converters, ...)
+    helpers = set(base)
+    for name, fn in tu.funcs.items():
+        if any(n.k == "CallExpr" and callee(n)[0] == "fn" and callee(n)[1] in (
+                "PyErr_Occurred", "PyErr_ExceptionMatches") for n in fn.walk()):
+            helpers.add(name)
+    helpers -= set(n for n in helpers if n.startswith(("PyInit_", "module_init", "init_")))
     out = set(conv) | helpers
     changed = True
     while changed:
@@ -265,7 +313,7 @@ def analyse_tu(tu):
             seen.add((slot, fname))
             what, pred, want = _lookup_spec(slot)
             exits = summary(tu, ctx, fname, {})
-            cf_exits = [(r, x) for r, x, cf in exits if cf]
+            cf_exits = [(r, x) for r, x, cf, _o in exits if cf]
             n += 1
             for r, x in sorted(cf_exits, key=repr):
                 if not pred(r, x):
